@@ -343,8 +343,13 @@ def run_crash(case):
     fired = []
     from sdc11073 import observableproperties as op
     op.strongbind(p.mdib, transaction=fired.append)
+    orig_handler = p.mdib.pre_commit_handler
     if mode == 'crash-precommit':
+        # the role providers' own pre-commit handler (e.g. the alert role provider, which adapts alert signals) runs first:
+        # whatever it prepared must be undone as well when a later handler vetoes the transaction
         def handler(mdib, tr):
+            if callable(orig_handler):
+                orig_handler(mdib, tr)
             raise Boom('pre-commit')
         p.mdib.pre_commit_handler = handler
     raised = None
@@ -359,7 +364,7 @@ def run_crash(case):
     except Exception as ex:  # noqa: BLE001  the body itself was rejected (e.g. duplicate get): also an abort
         raised = type(ex).__name__
     finally:
-        p.mdib.pre_commit_handler = None
+        p.mdib.pre_commit_handler = orig_handler
     after = _snap(p)
     d = _same(before, after, p)
     if fired:
